@@ -87,16 +87,8 @@ m('C09c_verify_always_prefix', F, """            self.calculate_checksum(checksu
             == checksum""", """            self.calculate_checksum(checksum_type, file_path, size_to_verify, segment_len)[:3]
             == checksum[:3]""")
 m('C10a_dest_leak_keyerror', D, "        end = self.lost_segments.get(segment_to_remove[0])", "        end = self.lost_segments.get(segment_to_remove[0]) if segment_to_remove[0] != 3 else self.lost_segments[3]")
-m('C10b_src_state_change_before_reject', S, """        if packet.directive_type in [
-            DirectiveType.METADATA_PDU,
-            DirectiveType.EOF_PDU,
-            DirectiveType.PROMPT_PDU,
-        ]:
-            raise InvalidPduForSourceHandler(packet)""", """        if packet.directive_type in [
-            DirectiveType.METADATA_PDU,
-            DirectiveType.EOF_PDU,
-            DirectiveType.PROMPT_PDU,
-        ]:
+m('C10b_src_state_change_before_reject', S, """        if get_packet_destination(packet) == PacketDestination.DEST_HANDLER:
+            raise InvalidPduForSourceHandler(packet)""", """        if get_packet_destination(packet) == PacketDestination.DEST_HANDLER:
             self._params.fp.progress = 0
             raise InvalidPduForSourceHandler(packet)""")
 m('C11a_src_fp_not_reset', S, """    def reset(self) -> None:
@@ -171,8 +163,8 @@ m('C20a_keepalive_to_dest', C, """        DirectiveType.FINISHED_PDU,
 m('C03c_progress_regress', D, "self._params.fp.progress = max(next_expected_progress, self._params.fp.progress)", "self._params.fp.progress = next_expected_progress")
 m('C04e_src_ack_timer_not_reset', S, """            self._params.positive_ack_params.ack_timer.reset()
             self._params.positive_ack_params.ack_counter += 1
-            self._prepare_eof_pdu(""", """            self._params.positive_ack_params.ack_counter += 1
-            self._prepare_eof_pdu(""")
+            # The progress""", """            self._params.positive_ack_params.ack_counter += 1
+            # The progress""")
 m('C04f_dest_ack_counter_skip', D, """            self._params.positive_ack_params.ack_timer.reset()
             self._params.positive_ack_params.ack_counter += 1
             self._prepare_finished_pdu()""", """            self._params.positive_ack_params.ack_timer.reset()
